@@ -16272,3 +16272,183 @@ func E11JoinerSidesConsistent(c *core.Ctx, r *core.Report) {
 	r.Count("E11.joiner-drawing-calls", n)
 	r.Floor("E11.joiner-drawing-calls", 8)
 }
+
+// E11CloseReturnsToStart: every close record Path.Close produces carries the start of the sub-path.
+func E11CloseReturnsToStart(c *core.Ctx, r *core.Report) {
+	r.Rule("E11.close-returns-to-start", "a close record carries the coordinates it returns to, and every reader (Pos, Coords, the sweep, the writers) takes them as the start of the sub-path. Path.Close produces the record in three ways — retagging a last LineTo that already ends at the start (within Epsilon), retagging a last LineTo that the closing line extends, and appending a new record — and in each the coordinates of the record are the components of the variable assigned from StartPos(): a block that stores CloseCmd in `p.d[len(p.d)-1]` also stores that variable's X in `p.d[len(p.d)-3]` and its Y in `p.d[len(p.d)-2]`, and an appended record has them as its second and third value. A retagged LineTo that keeps its own end point closes up to Epsilon away from the start: Pos() differs from StartPos(), and Settle panics when the two ends snap to different grid points")
+	p := c.MustPkg("")
+	info := p.TypesInfo
+	fd := core.MustFuncDecl(p, "Path.Close")
+	r.Func("canvas.Path.Close")
+	var start types.Object
+	ast.Inspect(fd.Body, func(m ast.Node) bool {
+		as, ok := m.(*ast.AssignStmt)
+		if !ok || len(as.Lhs) != 1 || len(as.Rhs) != 1 {
+			return true
+		}
+		if ce, ok := core.Unparen(as.Rhs[0]).(*ast.CallExpr); ok {
+			if f := core.CalleeOf(info, ce); f != nil && f.Name() == "StartPos" {
+				if id, ok := as.Lhs[0].(*ast.Ident); ok {
+					start = core.ObjOf(info, id)
+				}
+			}
+		}
+		return true
+	})
+	if start == nil {
+		r.Fail("E11.close-returns-to-start", "canvas.Path.Close|start of the sub-path", c.Pos(fd.Pos()), "no variable is assigned from StartPos()")
+		return
+	}
+	isComp := func(e ast.Expr, comp string) bool {
+		se, ok := core.Unparen(e).(*ast.SelectorExpr)
+		if !ok || se.Sel.Name != comp {
+			return false
+		}
+		id, ok := core.Unparen(se.X).(*ast.Ident)
+		return ok && core.ObjOf(info, id) == start
+	}
+	// tail index p.d[len(p.d)-k]
+	tail := func(e ast.Expr) (int64, bool) {
+		ie, ok := core.Unparen(e).(*ast.IndexExpr)
+		if !ok || !core.IsPathDataSel(info, ie.X) {
+			return 0, false
+		}
+		be, ok := core.Unparen(ie.Index).(*ast.BinaryExpr)
+		if !ok || be.Op != token.SUB {
+			return 0, false
+		}
+		ce, ok := core.Unparen(be.X).(*ast.CallExpr)
+		if !ok || len(ce.Args) != 1 {
+			return 0, false
+		}
+		if id, ok := ce.Fun.(*ast.Ident); !ok || id.Name != "len" || !core.IsPathDataSel(info, ce.Args[0]) {
+			return 0, false
+		}
+		return core.ConstInt(info, be.Y)
+	}
+	n := 0
+	ast.Inspect(fd.Body, func(m ast.Node) bool {
+		blk, ok := m.(*ast.BlockStmt)
+		if !ok {
+			return true
+		}
+		retag := token.NoPos
+		gotX, gotY := false, false
+		for _, st := range blk.List {
+			as, ok := st.(*ast.AssignStmt)
+			if !ok || len(as.Lhs) != len(as.Rhs) {
+				continue
+			}
+			for i, l := range as.Lhs {
+				if k, ok := tail(l); ok {
+					switch {
+					case k == 1 && core.ConstName(info, as.Rhs[i]) == "CloseCmd":
+						retag = as.Pos()
+					case k == 3 && isComp(as.Rhs[i], "X"):
+						gotX = true
+					case k == 2 && isComp(as.Rhs[i], "Y"):
+						gotY = true
+					}
+				}
+				// appended record
+				if ce, ok := core.Unparen(as.Rhs[i]).(*ast.CallExpr); ok && len(ce.Args) == 5 {
+					if id, ok := ce.Fun.(*ast.Ident); ok && id.Name == "append" && core.ConstName(info, ce.Args[1]) == "CloseCmd" {
+						n++
+						key := fmt.Sprintf("canvas.Path.Close|close record #%d (appended) returns to the start", n)
+						if isComp(ce.Args[2], "X") && isComp(ce.Args[3], "Y") {
+							r.OK("E11.close-returns-to-start", key, c.Pos(ce.Pos()), "")
+						} else {
+							r.Fail("E11.close-returns-to-start", key, c.Pos(ce.Pos()), fmt.Sprintf("the appended close record carries `%s, %s`, not the start of the sub-path", c.Src(ce.Args[2]), c.Src(ce.Args[3])))
+						}
+					}
+				}
+			}
+		}
+		if retag != token.NoPos {
+			n++
+			key := fmt.Sprintf("canvas.Path.Close|close record #%d (retagged LineTo) returns to the start", n)
+			if gotX && gotY {
+				r.OK("E11.close-returns-to-start", key, c.Pos(retag), "")
+			} else {
+				r.Fail("E11.close-returns-to-start", key, c.Pos(retag), "the last LineTo is retagged as the close command and keeps its own end point: the close ends up to Epsilon away from the start of the sub-path, Pos() differs from StartPos() and the sweep snaps the two ends to different grid points")
+			}
+		}
+		return true
+	})
+	r.Count("E11.close-records", n)
+	r.Floor("E11.close-records", 3)
+}
+
+// E11SelectorBacktracks: the descendant combinator tries every ancestor.
+func E11SelectorBacktracks(c *core.Ctx, r *core.Report) {
+	r.Rule("E11.selector-backtracks", "a CSS selector `A B` applies when some ancestor matches A together with everything to A's left; which ancestor that is cannot be told from A alone, because a child combinator further left (`svg>g rect`) may hold for a farther ancestor and fail for the nearest one. In the selector matcher (the recursive method of cssSelector that switches on the combinator) the case of the descendant combinator therefore walks the ancestors in a loop that gives up on none of them: every return inside that loop returns the constant true, so a candidate whose recursive match fails is followed by the next one. `return sels.appliesAt(…)` inside the loop commits to the nearest ancestor that matches A: `<svg><g><g><rect/></g></g></svg>` with `svg>g rect{fill:red}` stays black")
+	p := c.MustPkg("")
+	info := p.TypesInfo
+	n := 0
+	for _, fd := range core.AllFuncDecls(p) {
+		if fd.Body == nil || fd.Recv == nil || len(fd.Recv.List) != 1 || !isNamedDeref(info.TypeOf(fd.Recv.List[0].Type), "cssSelector") {
+			continue
+		}
+		fo := info.Defs[fd.Name]
+		recursive := false
+		ast.Inspect(fd.Body, func(m ast.Node) bool {
+			if ce, ok := m.(*ast.CallExpr); ok && core.CalleeOf(info, ce) == fo {
+				recursive = true
+			}
+			return true
+		})
+		if !recursive {
+			continue
+		}
+		r.Func("canvas." + core.FuncName(fd))
+		ast.Inspect(fd.Body, func(m ast.Node) bool {
+			cc, ok := m.(*ast.CaseClause)
+			if !ok {
+				return true
+			}
+			desc := false
+			for _, e := range cc.List {
+				if v := core.ConstVal(info, e); v != nil && v.ExactString() == "32" {
+					desc = true
+				}
+			}
+			if !desc {
+				return true
+			}
+			for _, st := range cc.Body {
+				ast.Inspect(st, func(q ast.Node) bool {
+					fs, ok := q.(*ast.ForStmt)
+					if !ok {
+						return true
+					}
+					n++
+					key := fmt.Sprintf("canvas.%s|ancestor loop #%d of the descendant combinator gives up on no candidate", core.FuncName(fd), n)
+					bad := ""
+					var badPos token.Pos
+					ast.Inspect(fs.Body, func(k ast.Node) bool {
+						if _, isFn := k.(*ast.FuncLit); isFn {
+							return false
+						}
+						rs, ok := k.(*ast.ReturnStmt)
+						if !ok || len(rs.Results) != 1 {
+							return true
+						}
+						if evalBool(info, rs.Results[0], func(ast.Expr) tri { return tUnknown }) != tTrue && bad == "" {
+							bad, badPos = c.Src(rs), rs.Pos()
+						}
+						return true
+					})
+					if bad != "" {
+						r.Fail("E11.selector-backtracks", key, c.Pos(badPos), fmt.Sprintf("`%s` inside the loop over the ancestors answers for the first candidate: when the rest of the selector fails there, farther ancestors that would satisfy it are never tried", bad))
+					} else {
+						r.OK("E11.selector-backtracks", key, c.Pos(fs.Pos()), "")
+					}
+					return false
+				})
+			}
+			return true
+		})
+	}
+	r.Count("E11.selector-ancestor-loops", n)
+	r.Floor("E11.selector-ancestor-loops", 1)
+}
